@@ -310,3 +310,34 @@ func H_C09_bessburst() {
 	vC09Bursts = 1
 	H_C09_bess()
 }
+
+// H_C09_remark: the control plane updates the QER that currently IS the
+// session-level QER (new rates, possibly a GBR that disqualifies it): after the
+// handlers' UpdateQER + MarkSessionQer at most one QER of the session is
+// session-level - the old label does not survive next to a new one.
+func H_C09_remark() {
+	s, _, qers := vSessionForQer()
+	s.qers = append(s.qers, qers...)
+	s.MarkSessionQer(s.qers)
+	marked := -1
+	for k := range s.qers {
+		if s.qers[k].qosLevel == SessionQos {
+			marked = k
+		}
+	}
+	if marked < 0 {
+		return
+	}
+	u := qer{qerID: s.qers[marked].qerID, ulMbr: vU64("new_ulmbr"), dlMbr: vU64("new_dlmbr"), ulGbr: vU64("new_ulgbr"), dlGbr: vU64("new_dlgbr")}
+	vAssert("remark:update-of-a-stored-qer-succeeds", s.UpdateQER(u) == nil)
+	s.MarkSessionQer(s.qers)
+	n := 0
+	for k := range s.qers {
+		if s.qers[k].qosLevel == SessionQos {
+			n++
+		}
+	}
+	vObserve("remark", n)
+	vAssert("remark:at-most-one-session-level-qer-after-updating-the-session-qer", n <= 1)
+	vCover("remark")
+}
